@@ -49,5 +49,7 @@ C06_NoFalseSuccess == J => \A k \in 1..N : Ev[k].ret = "ok" =>
 \* returns the error, so "no copy after ... the return of the call" - no later sweep sends anything for it - and the
 \* connection's next request is transmitted (the exchange gave back what it held)
 C06_FailedWriteSilent == (J /\ T.wfail) => (Len(C) = 0 /\ FinalRet = "err" /\ ~T.final.entry /\ T.nextSent)
+\* the housekeeping sweep that retransmits and gives up always returns
+C06_SweepReturns == (ph = 1) => ~T.sweepHung
 C06_NoFalseSuccessEnd == J => (FinalRet = "ok" => FirstResp # 0)
 =============================================================================
